@@ -5,6 +5,7 @@ CHECK = {
     "level_text": "Held on the executions observed. Exhaustive over the 65536 two-byte configs, the 8192 field triples, the 420 accepted configurations x 11 boundary raw lengths, the reference-frame grid profile x index x channels x id x protection x boundary lengths, and the 256 values of every conversion helper; sampled (PRNG, fixed case counts per tier) over payload bytes, the other raw lengths in 1..8184, the ignored header bits and multi-frame streams. Not a proof for payload contents or stream compositions that were not generated.",
     "level_note": "Trusts the harness's reference ADTS writer/bit extractor and frequency table (written from ISO 13818-7 section 6.2 as quoted in DESIGN.md section 6; self-checked writer-against-reader on every generated frame) and Go's runtime. Reference frames carry one raw data block (number_of_raw_data_blocks_in_frame = 0), layer 0; the CRC value is computed over the header and the first 192 payload bits or random, since random payloads are not parseable syntactic elements and the statement does not ask the decoder to verify it. HE/HEv2 are taken to carry ADTS profile LC (implicit signalling). Conformance of the library encoder's own header bits is recorded (reference parse agrees/disagrees counters), not asserted, because the statement demands only the round trip for the encoder.",
     "parts": [
+        {"name": "encseq", "pkg": "verifharness/prop/c11", "run": "^TestVerif_C11_EncoderSequences$", "timeout": {"quick": 600, "thorough": 3600}},
         {"name": "asc", "pkg": "verifharness/prop/c11", "run": "^TestVerif_C11_ASC$",
          "timeout": {"quick": 600, "thorough": 1800}},
         {"name": "encdec", "pkg": "verifharness/prop/c11", "run": "^TestVerif_C11_EncDec$",
